@@ -418,4 +418,34 @@ theorem word_recompose (z : ℕ) (hz : z < 2 ^ 384) (hc : z / 2 ^ 383 % 2 = 1) (
 theorem word_inf (z : ℕ) (hz : z < 2 ^ 384) (hc : z / 2 ^ 383 % 2 = 1) (hb : z / 2 ^ 382 % 2 = 1)
     (ha : z / 2 ^ 381 % 2 = 0) (hx : z % 2 ^ 381 = 0) : z = 2 ^ 383 + 2 ^ 382 := by omega
 
+/-! ### G2: coefficient ranges of `FQ2` values -/
+
+theorem getI_map_emod_range (cs : List Int) (i : ℕ) :
+    0 ≤ getI (cs.map (fun c => c % (blsP : Int))) i ∧ getI (cs.map (fun c => c % (blsP : Int))) i < (blsP : Int) := by
+  have hp : (0 : Int) < (blsP : Int) := by exact_mod_cast blsP_pos
+  induction cs generalizing i with
+  | nil => exact ⟨le_refl _, hp⟩
+  | cons c cs ih =>
+    cases i with
+    | zero => exact ⟨Int.emod_nonneg _ (ne_of_gt hp), Int.emod_lt_of_pos _ hp⟩
+    | succ i => exact ih i
+
+/-- every coefficient of an `FQ2(...)` built by the constructor is in `[0, p)` -/
+theorem getI_ofInts_range (cs : List Int) (i : ℕ) :
+    0 ≤ getI (Fqp.ofInts (v := .opt) (p := blsP) (mc := blsMc2) cs).coeffs i ∧
+      getI (Fqp.ofInts (v := .opt) (p := blsP) (mc := blsMc2) cs).coeffs i < (blsP : Int) :=
+  getI_map_emod_range cs i
+
+/-- every coefficient of a quotient `a / b` in the optimized `FQ2` is in `[0, p)`
+    (`__truediv__` is `__mul__` with the inverse, and `__mul__` ends with `% field_modulus`) -/
+theorem getI_div_range (a b : F2) (i : ℕ) :
+    0 ≤ getI (a / b).coeffs i ∧ getI (a / b).coeffs i < (blsP : Int) :=
+  getI_map_emod_range _ i
+
+/-- the G2 sign flag `(c * 2) // q` of a reduced coefficient is 0 or 1 -/
+theorem flagInt_range {c : Int} (h0 : 0 ≤ c) (h : c < (blsP : Int)) :
+    0 ≤ c * 2 / (blsP : Int) ∧ c * 2 / (blsP : Int) ≤ 1 := by
+  rw [blsP_val] at *
+  omega
+
 end PyEcc.CodecSem
